@@ -2,7 +2,7 @@
 # usage: tools/refeval.sh <Rn> <Pn> [check ids... default all]
 # Applies a behaviour-preserving change from /tmp/refac_out to a scratch tree and runs the checks: every check must exit 0.
 r=$1; p=$2; shift 2
-src=/tmp/refac_out/$r/$p/patch.diff
+src=/verif/seeded/preserving/$r-$p/patch.diff
 dir=/dev/shm/ref-$r-$p
 rm -rf $dir; git -C /repo worktree prune; git -C /repo worktree add -q --detach $dir HEAD || exit 2
 cd $dir; git apply $src || { echo "$r-$p: patch does not apply"; git -C /repo worktree remove --force $dir; exit 2; }
